@@ -77,7 +77,7 @@ def regenerate():
     tmp = os.path.join(BUILD, "gen.%d" % os.getpid())
     shutil.rmtree(tmp, ignore_errors=True)
     os.makedirs(tmp)
-    rc, o = sh([exe, "-repo", REPO, "-out", tmp])
+    rc, o = sh([exe, "-repo", REPO, "-out", tmp, "-props", os.path.join(LEAN, "InvProxy/Props")])
     if rc != 0:
         shutil.rmtree(tmp, ignore_errors=True)
         raise Broken("translator", "goextract", o.strip())
